@@ -229,6 +229,10 @@ def layered(inp):
     method = lopts.pop('method')
     lopts['return_imat'] = True
 
+    # The gradient is needed for every layer of the model: do not merge.
+    if gradient:
+        lopts['merge'] = False
+
     # Collect rec-independent empymod options.
     empymod_opts = {
         # User input ({src;rec}pts, {h;f}t, {h;f}targ, xdirect, loop, verb).
